@@ -3,7 +3,8 @@
 Proof: Properties/C26.v over C26/Model.v (buildString, Parse, HostPortOf, Validate incl. the TCP
        validator's JoinHostPort/TrimSpace/SplitHostPort and the name pattern, as functions on byte
        lists), C26/Proofs.v, C26/Valid.v.  The model mirrors internal/address/address.go with Parse
-       splitting host and port at the LAST ':' (fixes/C26-ipv6.diff).
+       splitting host and port at the LAST ':' (fixes/C26-ipv6.diff, applied to /repo as d405ae0;
+       before it, String() of an IPv6 host did not parse back).
 Tie:   real addresses built with New/NewWithParent from generated names (regex grammar, padded with
        ASCII/Unicode white space, boundary lengths), hosts (host names, IPv4, IPv6 with zones, and
        odd ones: brackets, spaces, '/', '@'), ports and parents; String(), Validate() verdict,
@@ -365,10 +366,10 @@ Eval vm_compute in summary.
 
 
 META = {
-    "ready": False,
+    "ready": True,
     "category": "proof",
     "technique": "Rocq proof over a hand model of String/Parse/HostPortOf/Validate on byte lists + differential conformance on generated addresses and strings",
-    "text": "Seven theorems: for EVERY address accepted by Validate (modelled exactly, incl. JoinHostPort/TrimSpace/SplitHostPort and the name pattern) whose host has no '/' or '@' (all host names, IPv4, IPv6 literals) Parse(String a) restores name, system, host, port and the parent name; HostPortOf(String a) = host:port; the string identifies the address; Parse's slicing is in bounds for all strings; IPv6 witness (the former first-':' split is refuted in Coq). The model is for Parse splitting at the last ':' (fixes/C26-ipv6.diff). Real New/NewWithParent/String/Validate/Parse/HostPortOf run on generated addresses (pattern-grammar names, host names, IPv4, IPv6 with zones, odd hosts, parents) and on arbitrary/mutated strings and are compared field by field with the Coq model by vm_compute, plus an independent round-trip/no-panic oracle.",
+    "text": "Seven theorems: for EVERY address accepted by Validate (modelled exactly, incl. JoinHostPort/TrimSpace/SplitHostPort and the name pattern) whose host has no '/' or '@' (all host names, IPv4, IPv6 literals) Parse(String a) restores name, system, host, port and the parent name; HostPortOf(String a) = host:port; the string identifies the address; Parse's slicing is in bounds for all strings; IPv6 witness (the former first-':' split is refuted in Coq). The model is for Parse splitting at the last ':' (fixes/C26-ipv6.diff, in /repo as d405ae0). Real New/NewWithParent/String/Validate/Parse/HostPortOf run on generated addresses (pattern-grammar names, host names, IPv4, IPv6 with zones, odd hosts, parents) and on arbitrary/mutated strings and are compared field by field with the Coq model by vm_compute, plus an independent round-trip/no-panic oracle.",
     "design_ref": "DESIGN.md 7/C26",
-    "level_note": "Trusted: Coq kernel; the hand model (differentially tested every run); Go's regexp/net/strings/strconv as modelled. Unrepaired trees report the IPv6 round-trip violation with a concrete address.",
+    "level_note": "Trusted: Coq kernel; the hand model (differentially tested every run); Go's regexp/net/strings/strconv as modelled. A tree without the last-':' split reports the IPv6 round-trip violation with a concrete address.",
 }
